@@ -436,6 +436,19 @@ def r3(ctx):
                   found=detail)
     if not env_reads:
         ctx.ok("package", "no environment variable is read inside a function", nontrivial=False)
+    # nothing asks a pool how many workers it has (what is computed would then depend on the worker count)
+    internals = {"_processes", "_max_workers", "_pool", "_num_workers"}
+    peeks = []
+    for fi in ana.prog.functions.values():
+        for n in Resolver.walk_own(fi.node):
+            if isinstance(n, ast.Attribute) and n.attr in internals:
+                peeks.append((fi, n, n.attr))
+            elif isinstance(n, ast.Call) and isinstance(n.func, ast.Name) and n.func.id in ("getattr", "hasattr") and len(n.args) >= 2 \
+                    and isinstance(n.args[1], ast.Constant) and n.args[1].value in internals:
+                peeks.append((fi, n, n.args[1].value))
+    for fi, n, what in peeks:
+        ctx.fail(fi, f"the size of the worker pool is read back (`{what}`): what is computed may depend on the number of workers",
+                 line=n.lineno, role=f"pool-size-read:{short(fi.qualname)}:{what}", expected="the pool is only submitted to, closed and joined", found=unparse(n, 60))
 
 
 def _only_feeds_pool_size(ana, fi, name) -> bool:
